@@ -51,6 +51,9 @@ package dns
 //@   exit rootwins: mux.z != nil && t == TypeDS && maphas(mux.z, ".") ==> ret0 == mapget(mux.z, ".")
 //@   assert at "if t != TypeDS {" hit: maphas(mux.z, q[off:]) && (off == 0 || sep(q, off - 1))
 //@   assert at "if t != TypeDS {" first: t != TypeDS ==> (forall p in 0..off :: (p == 0 || sep(q, p - 1)) ==> !maphas(mux.z, q[p:]))
+// a DS query belongs to the parent side of a zone cut: the match that is only recorded (and may be overridden by a
+// registered ancestor) is the first, longest one; the next registered ancestor is the enclosing parent and is final
+//@   assert at "handler = h" dsfirst: forall p in 0..off :: (p == 0 || sep(q, p - 1)) ==> !maphas(mux.z, q[p:])
 //@   loop 1 invariant bnd: 0 <= off && len(q) > 0 && (!end ==> off == 0 || (off <= len(q) - 1 && sep(q, off - 1)))
 //@   loop 1 invariant nomatch: t != TypeDS ==> handler == nil && (forall p in 0..off :: (p == 0 || sep(q, p - 1)) ==> !maphas(mux.z, q[p:]))
 //@   loop 1 decreases end ? 0 : 1
